@@ -106,6 +106,16 @@ def gen(ctx, T):
             streams.append([const(5, 2, False), mk(5, 64), const(5, 3, True)])
             streams.append([mk(1, a), undef(1, 3), switch(3, a == 64), mk(7, b), undef(7, 3), switch(3, b == 64), switch(3, b == 64, 0)])
             streams.append([switch(3, False), mk(1, 64), undef(1, 3), switch(3, True), mk(1, 32), switch(3, True), undef(1, 3), switch(3, False)])
+    # every core opcode once, in its plainest conforming shape (the module generator samples the table; the first, the last and every
+    # vendor opcode must be accepted like the common ones)
+    for e_ in g.core:
+        if any(k in ("LiteralContextDependentNumber", "LiteralSpecConstantOpInteger") for k, _ in e_["ops"]):
+            continue
+        g.next_id = 10
+        try:
+            streams.append([g.inst(e_)])
+        except Exception:
+            pass
     for st in streams:
         words = instgen.header()
         for i in st:
@@ -222,7 +232,7 @@ def run(ctx):
     ctx.samples = [{"request": reqs[i][:160], "implementation": impl[i][:160]} for i in (0, len(reqs) // 2, len(reqs) - 1)]
     ctx.assumptions += ["oracle for malformed inputs is a necessary condition only (prefix delivered unchanged, error index consistent); exact acceptance is decided by the differential against the Lean parser model"]
     return C.finish(ctx, level="proof", checker_cmd="lake build Rspirv.Props.C03All + #print axioms",
-                    rule="corpus (pre-fix OpSpecConstantOp defects first); seeded layout-ordered modules over all opcode classes, each also truncated at byte positions, with words replaced by boundary values and with every word count set to 0/1/+-1/0xffff; distinct non-trivial = distinct responses",
+                    rule="corpus (pre-fix OpSpecConstantOp defects first); seeded layout-ordered modules over all opcode classes, each also truncated at byte positions, with words replaced by boundary values and with every word count set to 0/1/+-1/0xffff; streams whose literal-width context changes (type id declared again with another width, declared after first use, selector redefined); distinct non-trivial = distinct responses",
                     trusted=["hand model Parser.lean + differential harness", "translators"])
 
 
